@@ -610,6 +610,300 @@ def c12(prop, tier, seed):
     return crash
 
 
+# ----------------------------------------------------------------------------------------------
+# C11: lock programs mined from the code, composed and model-checked (spec/Locks.tla), deadlocks replayed under the gate
+# ----------------------------------------------------------------------------------------------
+@register("C11")
+def c11(prop, tier, seed):
+    import locks, collections
+    mined = locks.mine()
+    expected = {"create", "write_fits", "write_last", "write_last_grow_file", "write_reloc_end", "write_reloc_hole", "write_adjacent_hole", "truncate",
+                "rename", "remove", "region_flush_data", "db_flush_dirty", "db_flush_clean", "compact", "reader", "set_min_len_grow",
+                "raw_write_push", "raw_write_holes", "raw_flush", "raw_commit", "cmp_write_fast", "cmp_write_slow_fill_page", "cmp_write_many_pages",
+                "cmp_collect", "cmp_ro_collect", "cmp_fold_stored_io", "cmp_flush"}
+    got = {p["name"] for p in mined if p["prog"]}
+    if expected - got:
+        raise ToolError("lock programs were not observed for: %s (vacuity guard)" % sorted(expected - got))
+    progs = locks.distinct_programs(mined)
+    wd = vlib.scratch_dir("locks")
+    known = {k["signature"]: k for k in vlib.load_known() if k.get("status") == "known" and "C11" in k.get("properties", []) and isinstance(k.get("signature"), str)}
+    states = trans = 0
+    violations, known_lines, classes_out, samples = [], [], [], []
+    try:
+        all_dead = []
+        cand_counts = {}
+        for nt in (2, 3):
+            if tier == "thorough":
+                g, d, dead = locks.run_all_deadlocks(progs, nt, os.path.join(wd, f"all{nt}"), timeout=3000, workers=14)
+                cand_counts[nt] = "all combinations"
+            else:
+                cands = locks.candidate_combos(progs, nt)
+                cand_counts[nt] = len(cands)
+                if nt == 2:
+                    # pairs are cheap: always the full product
+                    g, d, dead = locks.run_all_deadlocks(progs, nt, os.path.join(wd, f"all{nt}"), timeout=900, workers=12)
+                elif cands:
+                    g, d, dead = locks.run_all_deadlocks(progs, nt, os.path.join(wd, f"cand{nt}"), timeout=1500, workers=12, combos=cands)
+                else:
+                    g, d, dead = 0, 0, []
+            states += d; trans += g
+            all_dead += dead
+        by_sig = collections.defaultdict(list)
+        for x in all_dead:
+            by_sig[locks.signature(progs, x)].append(x)
+        replays = 0
+        for sig, lst in sorted(by_sig.items()):
+            rep = lst[0]
+            names = ["|".join(progs[i - 1]["names"]) for i in rep["pick"]]
+            conf = locks.confirm_on_real_code(progs, (rep["pick"], rep["variant"]), os.path.join(wd, "confirm"))
+            replays += 1
+            entry = {"signature": sig, "deadlocked_states": len(lst), "program_combinations": len({(tuple(x["pick"]), tuple(x["variant"])) for x in lst}),
+                     "example": names, "replay_on_real_code": conf.get("confirmed"), "replay_detail": conf.get("detail")}
+            classes_out.append(entry)
+            if sig in known:
+                if conf.get("confirmed"):
+                    known_lines.append("%s %s" % (known[sig]["id"], " || ".join(names)))
+                else:
+                    # a listed deadlock that no longer reproduces on the real code is not reported (it may have been repaired);
+                    # the model still contains it, which is recorded in the evidence
+                    pass
+            else:
+                if conf.get("confirmed") is False and isinstance(conf.get("detail"), dict) and conf["detail"].get("steps_done") == conf["detail"].get("steps_total") \
+                        and all(conf["detail"].get("finished", [False])):
+                    # the schedule was replayed to its end and every call returned: the abstraction over-approximated
+                    entry["verdict"] = "refuted by replay (all calls returned)"
+                    continue
+                violations.append({"property": prop, "tier": tier, "seed": seed, "kind": "deadlock", "spec": "Locks", "signature": sig,
+                                   "programs": names, "pick": rep["pick"], "variant": rep["variant"], "pc": rep["pc"],
+                                   "lock_programs": [progs[i - 1]["prog"] for i in rep["pick"]], "replay": conf})
+        samples = [{"program": p["names"], "locks": " ".join(("+" if k == "acq" else "-") + l + m for k, l, m in p["prog"])} for p in progs[:6]]
+    finally:
+        shutil.rmtree(wd, ignore_errors=True)
+    cov = {"states": states, "transitions": trans, "traces_validated_against_impl": len(mined), "samples": samples,
+           "evaluations": len(mined) + len(classes_out), "distinct_nontrivial": len(progs),
+           "rule": "lock programs are recorded from the real code (one public call per scenario, every placement path / write regime / reader kind), reduced "
+                   "(read sections held alone are dropped) and de-duplicated; TLC checks NoDeadlock for every pair and (quick: every triple that passes a static "
+                   "necessary condition for a deadlocked state; thorough: every triple) on shared and on distinct regions; every deadlock class is replayed on the "
+                   "real code under the lock gate and judged by the wait-for graph of the tap's events; distinct_nontrivial = distinct reduced programs",
+           "mined_scenarios": len(mined), "distinct_programs": len(progs), "candidate_combinations": cand_counts,
+           "deadlock_classes": classes_out, "exhaustive": tier == "thorough", "checker_cmd": "vh lockmine ; tlc Locks.tla ; vh sched"}
+    return {"level": "model_checking", "coverage": cov,
+            "assumptions": ["lock semantics: parking_lot task-fair RwLock (a queued writer blocks new readers)", "lock instances are abstracted to own/other region or vector; "
+                            "a thread runs one public call", "leaf mutexes (dirty bounds, background-task list) and the vector header lock are not traced",
+                            "keeping a Reader alive across another call of the same thread (documented misuse) is excluded: each program is one call"],
+            "violations": violations, "known": known_lines}
+
+
+# ----------------------------------------------------------------------------------------------
+# C15 lazy vectors (spec/Lazy.tla), C17 codecs (spec/Codec.tla), C06/C19 eager computations (spec/Eager.tla)
+# ----------------------------------------------------------------------------------------------
+def case_run(module, cfg, timeout=900):
+    wd = vlib.scratch_dir("case")
+    try:
+        a = vlib.run_tlc(module, cfg, wd, 8, timeout)
+    finally:
+        shutil.rmtree(wd, ignore_errors=True)
+    if a["violated"]:
+        raise ToolError("%s: %s %s" % (module, a["violated"], a["err_trace"][:12]))
+    if not a["distinct"]:
+        raise ToolError(module + ": TLC explored nothing")
+    return a
+
+
+@register("C15")
+def c15(prop, tier, seed):
+    n, m = q(tier, (3, 3), (4, 4))
+    known_ids = vlib.all_known_devs()
+    dev = "{" + ", ".join('"%s"' % d for d in sorted(known_ids & {"D10"})) + "}"
+    cfg = f"SPECIFICATION Spec\nCONSTANTS\n  MaxN = {n}\n  MaxM = {m}\n  Dev = {dev}\nINVARIANT Agrees\nINVARIANT Emit\nCHECK_DEADLOCK FALSE\n"
+    a = case_run("MCLazy", cfg, 2400)
+    cases = [json.loads(x) for x in a["emitted"]["REPLAY"]]
+    wd = vlib.scratch_dir("lazy")
+    try:
+        nd = os.path.join(wd, "cases.ndjson")
+        vlib.write_ndjson(nd, cases)
+        r = vlib.run_vh(["lazyreplay", "--in", nd, "--all", "--max-violations", "5"], timeout=1800)
+    finally:
+        shutil.rmtree(wd, ignore_errors=True)
+    known_lines = ["%s %s" % (k["dev"], json.dumps(k.get("example"))) for k in r.get("known", []) if k["dev"] in known_ids]
+    violations = [dict(v, property=prop, spec="Lazy") for v in r.get("violations", [])]
+    for kk in r.get("known", []):
+        if kk["dev"] not in known_ids:
+            violations.append({"property": prop, "kind": "unlisted-deviation", "dev": kk["dev"], "example": kk.get("example")})
+    cov = {"states": a["distinct"], "transitions": a["generated"], "traces_validated_against_impl": r["cases"],
+           "samples": [cases[len(cases) // 2], cases[-1]], "evaluations": r["reads"], "distinct_nontrivial": r["distinct_nontrivial"],
+           "rule": "every case of the bounded input space of spec/Lazy.tla (source length <= MaxN, every monotone window-start / first-index mapping of length <= MaxM "
+                   "incl. empty windows and mappings shorter/longer than the source, every range, every ascending index list) is evaluated by TLC (transcription = "
+                   "defining formula) and replayed on the real LazyDeltaVec / LazyAggVec(Sparse) / LazyVecFrom1,2,3 through ~35 read paths x 4 source variants; "
+                   "non-trivial = source length >= 2 and a non-empty mapping",
+           "exhaustive": True, "variants": r.get("variants"), "panics_observed": r.get("panics_observed"), "len_vs_mapping_mismatch": r.get("len_vs_mapping_mismatch"),
+           "checker_cmd": "tlc MCLazy.tla ; vh lazyreplay"}
+    return {"level": "model_checking", "coverage": cov,
+            "assumptions": ["fixed source contents (distinct increasing integers); DeltaChange checked on exactly representable values; DeltaAvg / DeltaRate bodies not exercised",
+                            "harness built with integer overflow checks on"],
+            "violations": violations, "known": known_lines}
+
+
+@register("C17")
+def c17(prop, tier, seed):
+    cfg = "SPECIFICATION Spec\nINVARIANT DecodeSound\nINVARIANT DecodeComplete\nINVARIANT Emit\nCHECK_DEADLOCK FALSE\n"
+    a = case_run("MCCodec", cfg)
+    cases = [json.loads(x) for x in a["emitted"]["REPLAY"]]
+    known = [k for k in vlib.load_known() if k.get("status") == "known" and "C17" in k.get("properties", []) and isinstance(k.get("signature"), dict)]
+    classes = {c: k["id"] for k in known for c in k["signature"].get("class", [])}
+    wd = vlib.scratch_dir("codec")
+    try:
+        nd = os.path.join(wd, "cases.ndjson")
+        vlib.write_ndjson(nd, cases)
+        r = vlib.run_vh(["codecreplay", "--in", nd, "--keep-going", "--max-violations", "5", "--known", ",".join(sorted(classes))] if classes
+                        else ["codecreplay", "--in", nd, "--keep-going", "--max-violations", "5"], timeout=1800)
+    finally:
+        shutil.rmtree(wd, ignore_errors=True)
+    known_lines = []
+    seen_ids = {}
+    for kk in r.get("known", []):
+        seen_ids.setdefault(classes.get(kk["id"], kk["id"]), []).append("%s x%d %s" % (kk["id"], kk["count"], json.dumps(kk["example"].get("case"))))
+    for i, parts in sorted(seen_ids.items()):
+        known_lines.append("%s %s" % (i, " ; ".join(parts)))
+    violations = [dict(v, property=prop, spec="Codec") for v in r.get("violations", [])]
+    cov = {"evaluations": r["evaluations"], "distinct_nontrivial": r["distinct_nontrivial"], "samples": [cases[0], cases[len(cases) // 2], cases[-1]],
+           "rule": "the product of boundary classes per field of the metadata slot (0, 1, 4095, 4096, 4097, 8192, 2^32, 2^63, 2^64-1; name lengths 0/1/1024/1025/4064/4065/2^63; "
+                   "valid/invalid UTF-8; exact/short/empty input), of the vector header, the page entry and the rollback change record (each length field x "
+                   "{exact, 0, -1, +1, 2^61, 2^63, 2^64-1}, every field-boundary cut and every byte cut) is enumerated by TLC with the expected outcome class and "
+                   "materialised as bytes for the real decoders; every slot case is also opened inside a real database next to two valid slots; plus numeric "
+                   "value round trips at boundary values. distinct = executed cases",
+           "states": a["distinct"], "transitions": a["generated"], "traces_validated_against_impl": r["cases"], "by_kind": r.get("by_kind"),
+           "open_wild": {k: v for k, v in r.get("open_wild", {}).items() if k in ("ok", "panic", "err", "ok_but_reading_it_panics", "ok_but_good_regions_damaged")},
+           "peak_alloc": r.get("peak_alloc"), "skipped": r.get("skipped"), "exhaustive": True, "checker_cmd": "tlc MCCodec.tla ; vh codecreplay"}
+    return {"level": "exploration", "coverage": cov,
+            "assumptions": ["the TLA+ model owns the case analysis (field classes, decoder check order, expected outcome class); byte strings are built by the harness",
+                            "page entries are exercised through a PcoVec (Page is crate-private); harness built with integer overflow checks on; memory faults are "
+                            "contained in forked children"],
+            "violations": violations, "known": known_lines}
+
+
+def eager_histories(depth, histk, maxlen, wd, scheme="cum"):
+    cfg = f"""SPECIFICATION Spec
+CONSTANTS
+  Vals = {{0, 1, 5}}
+  MaxLen = {maxlen}
+  W = 2
+  Caps = {{0, 1, 2}}
+  Depth = {depth}
+  Scheme = "{scheme}"
+  HistK = {histk}
+VIEW HView
+CONSTRAINT DepthOK
+CHECK_DEADLOCK FALSE
+INVARIANT Correct
+INVARIANT VersionRule
+"""
+    states = trans = 0
+    for s in ("id", "cum", "max", "rsum"):
+        a = vlib.run_tlc("MCEager", cfg.replace('Scheme = "%s"' % scheme, 'Scheme = "%s"' % s) + ("INVARIANT Emit\n" if s == scheme else ""),
+                         os.path.join(wd, "tlc_" + s), 6, 1500)
+        if a["violated"]:
+            raise ToolError("Eager model (%s): %s" % (s, a["violated"]))
+        states += a["distinct"]; trans += a["generated"]
+        if s == scheme:
+            hs = [json.loads(x) for x in a["emitted"]["REPLAY"]]
+    keyed = {}
+    for p in hs:
+        keyed[tuple(json.dumps(s, sort_keys=True) for s in p)] = p
+    pref = set()
+    for kx in keyed:
+        for i in range(1, len(kx)):
+            pref.add(kx[:i])
+    mx = [p for kx, p in keyed.items() if kx not in pref and any(s["op"] == "compute" for s in p)]
+    return states, trans, mx
+
+
+EAGER_KNOWN_METHODS = {"all_time_low_excl": "D23", "first_per_index": "D30"}
+
+
+def eager_run(prop, tier, seed, methods, windows, fmts, note):
+    known_ids = vlib.all_known_devs()
+    wd = vlib.scratch_dir("eager")
+    violations, known_lines, per_method = [], [], {}
+    try:
+        states, trans, hs = eager_histories(q(tier, 6, 7), q(tier, 2, 3), q(tier, 3, 4), wd)
+        # a rotating sample per method keeps the quick tier short; thorough replays everything
+        nd_all = os.path.join(wd, "all.ndjson")
+        vlib.write_ndjson(nd_all, hs)
+        jobs = []
+        cap = q(tier, 1200, len(hs))
+        for mi, m in enumerate(methods):
+            sub = hs[mi % 7::max(1, len(hs) // cap)][:cap] if cap < len(hs) else hs
+            f = os.path.join(wd, f"h_{m}.ndjson")
+            vlib.write_ndjson(f, sub)
+            for w in windows:
+                for (sf, of) in fmts:
+                    jobs.append((m, w, sf, of, f, sub))
+        computes = steps = behaviours = nontrivial = multi = 0
+        def one(job):
+            m, w, sf, of, f, sub = job
+            p = __import__("subprocess").run(["timeout", "900", vlib.VH, "eagerreplay", "--in", f, "--method", m, "--window", str(w), "--srcfmt", sf, "--outfmt", of,
+                                              "--hang-secs", "10"], stdout=__import__("subprocess").PIPE, stderr=__import__("subprocess").DEVNULL, text=True)
+            if p.returncode not in (0, 1):
+                raise ToolError(f"eagerreplay {m} rc={p.returncode}")
+            return job, json.loads([l for l in p.stdout.splitlines() if l.startswith("{")][-1])
+        with cf.ThreadPoolExecutor(14) as ex:
+            for job, r in ex.map(one, jobs):
+                m, w, sf, of, f, sub = job
+                computes += r["computes"]; steps += r["steps"]; behaviours += r["behaviours"]; nontrivial += r["distinct_nontrivial"]; multi += r["batches_gt1"]
+                pm = per_method.setdefault(m, {"computes": 0, "violations": 0})
+                pm["computes"] += r["computes"]; pm["violations"] += len(r["violations"])
+                for v in r["violations"]:
+                    dev = EAGER_KNOWN_METHODS.get(m)
+                    if dev and dev in known_ids:
+                        line = "%s %s: %s" % (dev, m, " ".join(v.get("steps", [])))
+                        if not any(l.startswith(dev + " ") for l in known_lines):
+                            known_lines.append(line)
+                    else:
+                        violations.append(dict(v, property=prop, spec="Eager", method=m, window=w, srcfmt=sf, outfmt=of,
+                                               steps_full=sub[v["behaviour"]] if v.get("behaviour") is not None and v["behaviour"] < len(sub) else None))
+    finally:
+        shutil.rmtree(wd, ignore_errors=True)
+    sample = [{"ops": [s["op"] + (str(s.get("vals", "")) if s["op"] == "append" else ("(mf=%s,cap=%s)" % (s.get("max_from"), s.get("cap")) if s["op"] == "compute" else
+                                                                                    ("(%s)" % s.get("to") if s["op"] == "truncate" else ""))) for s in hs[len(hs) // 2]]}]
+    cov = {"states": states, "transitions": trans, "traces_validated_against_impl": behaviours, "samples": sample, "evaluations": computes,
+           "distinct_nontrivial": nontrivial,
+           "rule": "histories (append / truncate+regrow with max_from <= first changed index / version bump / write / re-import / compute with batch capacity 0,1,2) "
+                   "are enumerated by TLC from spec/Eager.tla (whose four resume schemes are model-checked against the from-scratch definition) and replayed on every "
+                   "registered compute_* method; after every compute the stored result must equal a fresh one-batch from-scratch run (and a closed form where one is "
+                   "registered); " + note + "; non-trivial = history with >= 2 compute steps; evaluations = compute calls checked",
+           "methods": len(methods), "windows": windows, "formats": ["%s->%s" % x for x in fmts], "multi_batch_computes": multi, "histories": len(hs),
+           "per_method": per_method, "exhaustive": tier == "thorough", "checker_cmd": "tlc MCEager.tla ; vh eagerreplay --method <m>"}
+    return {"level": "model_checking", "coverage": cov,
+            "assumptions": ["value-level oracle = the property's own definition (fresh from-scratch run of the same method) plus closed forms for 41 methods (harness side)",
+                            "float methods are driven only with inputs on which their arithmetic is exact (see harness/EAGER_NOTES.md); compute_rolling_sd / compute_expanding_sd are skipped",
+                            "batch capacity is set through the cfg(anydb_verif) hook vecdb::verif::set_max_cache_size"],
+            "violations": violations, "known": known_lines}
+
+
+def eager_methods():
+    p = __import__("subprocess").run([vlib.VH, "eagerreplay", "--list"], stdout=__import__("subprocess").PIPE, text=True)
+    return [l.strip() for l in p.stdout.splitlines() if l.strip()]
+
+
+@register("C06")
+def c06(prop, tier, seed):
+    ms = eager_methods()
+    if len(ms) < 50:
+        raise ToolError("eagerreplay --list returned %d methods" % len(ms))
+    return eager_run(prop, tier, seed, ms, q(tier, [2], [0, 1, 2, 6]), q(tier, [("bytes", "pco")], [("bytes", "bytes"), ("pco", "pco"), ("bytes", "pco"), ("pco", "bytes")]),
+                     "window sizes per tier")
+
+
+@register("C19")
+def c19(prop, tier, seed):
+    r = eager_run(prop, tier, seed, ["transform", "to", "cumulative", "sum", "max", "add", "previous_value", "sum_from_indexes"], [2],
+                  q(tier, [("bytes", "bytes"), ("pco", "pco")], [("bytes", "bytes"), ("pco", "pco"), ("bytes", "pco")]),
+                  "for the closure-based methods (transform, to) the closure records the indices it is called with: after a version bump they must cover 0..len, "
+                  "without one none may lie below min(max_from, stored length); the recorded computed version must change with the bump and survive re-import")
+    return r
+
+
 def merge(results):
     out = results[0]
     for r in results[1:]:
